@@ -82,6 +82,42 @@ CLAIMED = {
             "Trusts: Coq kernel; extraction + driver; rt/rt.c + DCAS hook; SC interleaving; -O0 build; fewer than 2^64 updates between a counter load "
             "and its DCAS; multi-signal waits run on a thread-with-sleep abstraction (given C01/C02).",
             "DESIGN.md 6 C20"),
+    "C08": ("translator (shim shapes regenerated from fiber_io.c) + Coq theorems over the generated table and a model of the retry loops with the "
+            "kernel as an oracle + differential run of the real shims against libc + model replay on recorded real-call results",
+            "Partial by nature (the kernel's behaviour is an oracle). Proved in Coq for all descriptor values, argument values and oracle behaviours: the "
+            "value a shim returns is that of its last real call and every earlier one failed with EAGAIN; blocking-mode descriptors never return EAGAIN; "
+            "non-blocking mode / MSG_DONTWAIT never waits; no out-of-range index of the per-fd tables and an error return for invalid descriptors; every "
+            "registered fd waiter is woken by readiness or close. The hypotheses about the code (loop shapes, should_block mask, bounds checks, fcntl mode "
+            "tracking, fresh errno) are match lemmas computed on a table REGENERATED FROM THE SOURCE on every run (a `_fails` lemma is a violation). "
+            "The real shims are additionally run against plain libc on scripts (pipes, socketpairs, TCP loopback, transfers up to 4x the socket buffer, "
+            "mode switches, many waiters per fd, close with waiters, bad descriptors) and the model is replayed on the recorded real-call results.",
+            "Outside the model: what the kernel returns, epoll readiness, kernel-returned fds assumed < max_fd, connect's single wait, lock ordering of "
+            "fd waits (belongs to C01), int truncation of ssize_t, Solaris/libev back-ends. Trusts: Coq kernel, tools/gen/gen_shims.py (aborts on "
+            "unrecognised shapes), extraction + driver, rt/h_io.c.",
+            "DESIGN.md 6 C08, 12.3"),
+    "C09": ("translator (tick expression + wrappers -> SleepGen.v) + Coq theorems over a tree model, the typed arithmetic and a time-base model + "
+            "differential run of the extern tree functions + virtual-time scenarios on the real runtime",
+            "Proved in Coq: the sleepers tree (insert/remove_less_than) keeps the BST invariant and removes exactly the nodes below the bound, each once, in "
+            "order; the tick arithmetic (generated from the source, evaluated with C types) covers the requested duration for every input once widened "
+            "to 64 bits; with the timer read under the sleep lock a sleeper is never woken before its deadline and no wake-up is lost; each sleeper is "
+            "scheduled exactly once when the chain walk reads `next` before scheduling. The pre-repair behaviours are kept as `_refuted` theorems with "
+            "witnesses. Tie: match lemma on the regenerated expression ASTs, differential run of waiter_insert/waiter_remove_less_than against the "
+            "extracted model, and deterministic virtual-time scenarios (timerfd replaced by an eventfd the harness advances) on the real runtime.",
+            "Partial: kernel timerfd/epoll behaviour and the relation of ticks to real time are outside the model; when a woken sleeper actually runs is "
+            "C01/C10. Trusts: Coq kernel, tools/gen/gen_sleep.py, extraction + driver, rt/h_sleep.c.",
+            "DESIGN.md 6 C09, 12.3"),
+    "C19": ("translator (the asm template of fiber_context_swap and the pushes of fiber_context_init -> coq/gen/CtxGen.v, regenerated every run) + Coq "
+            "symbolic execution of the generated code + differential run of the compiled switch",
+            "The Coq model of the context switch IS the generated instruction list: the theorems (round trip for all register files and memories, "
+            "composition over any switch sequence among any set of contexts with disjoint stacks, entry into a fresh context with the argument in rdi "
+            "and SysV stack alignment, exact set of registers written vs. declared) are re-proved against what the source says on every run. The compiled "
+            "fiber_context_swap/init are run differentially (register files planted by an assembly trampoline, chains of 2-5 contexts, three stack "
+            "strategies, malloc/mmap/splitstack balance per create/destroy) and compared with the extracted interpreter.",
+            "Partial: ucontext back-end and split-stack internals only through the differential oracle; i386 not covered; stack released exactly once is "
+            "checked by allocation accounting, not proved; the undeclared clobbers (rax, rcx, rdi) are sound only because the asm ends an out-of-line "
+            "function (assumption). Trusts: Coq kernel, tools/gen/gen_ctx.py (aborts on unrecognised instructions), the 9-instruction ISA semantics "
+            "of coq/CtxIsa.v, extraction + driver, rt/h_ctx.c.",
+            "DESIGN.md 6 C19"),
 }
 
 NOT_YET = "model and proof not built yet in this development (see DESIGN.md 6 for the plan); not claimed until a check exists"
